@@ -205,6 +205,17 @@ def expand_table(table):
     return {"ncols": len(cols), "col_styles": cols, "rows": rows}
 
 
+def expand_row(row):
+    """-> ([(value, type, style, covered)] with cell repeats expanded, row repeat count) for one table:table-row element"""
+    cells = []
+    for c in row:
+        if c.tag not in (T_CELL, T_COVERED):
+            continue
+        v, vt = cell_value(c)
+        cells.extend([(v, vt, c.get(q("table:style-name")), c.tag == T_COVERED)] * _rep(c, A_COLREP))
+    return cells, _rep(row, A_ROWREP)
+
+
 def lint_table(table):
     """Structural rules consumers rely on.  Returns list of (code, message)."""
     table = parse(table)
@@ -331,7 +342,9 @@ def c14n(x) -> bytes:
 
         el = copy.deepcopy(el)  # a root of its own: in-scope namespaces travel with it
         el.tail = None
-    return etree.tostring(el, method="c14n2")
+        return etree.tostring(el, method="c14n2")
+    # a whole document: comments and processing instructions around the root element belong to the infoset
+    return etree.tostring(el.getroottree(), method="c14n2")
 
 
 def paragraphs(root):
